@@ -1,7 +1,7 @@
 (* C12: the four solver theorems in their final form.
 
    [feedforward n dp]: the network n is well formed (positions in range, Outputs = its output neurons,
-   plain links, at most one link per ordered pair) and dp is its depth function: 0 on sensors and, on a
+   plain links; several links between one ordered pair of nodes are allowed) and dp is its depth function: 0 on sensors and, on a
    neuron, 1 + the maximum over its (non-empty) incoming links.  Such a dp exists exactly when the link
    relation is acyclic and every neuron is reachable from a sensor, and dp p is then the length of the
    longest path from a sensor to p.  [depth n dp] is the longest sensor-to-output path. *)
@@ -18,7 +18,6 @@ Record feedforward (dp : nat -> nat) : Prop := mkFeed {
   fw_outs_nodup : NoDup (outputs n);
   fw_outs : forall o, In o (outputs n) <-> (o < N /\ is_output (role_at n o) = true);
   fw_plain : forall p l, p < N -> In l (nd_in (node_at n p)) -> l_td l = false;
-  fw_single : forall p, p < N -> neuronb n p = true -> NoDup (map (@l_src R) (nd_in (node_at n p)));
   fw_depth_sensor : forall p, p < N -> sensorb n p = true -> dp p = 0;
   fw_depth_neuron : forall p, p < N -> neuronb n p = true ->
       nd_in (node_at n p) <> [] /\ dp p = S (list_max (map (fun l => dp (l_src l)) (nd_in (node_at n p))))
@@ -211,8 +210,8 @@ Theorem fast_recursive_topo (x : list R) :
 Proof.
   intros SV Hx. destruct fast_built as (fn & Efn & TR).
   destruct (fast_load_base fn x TR SV Hx) as (s1 & E1 & B & LD & LI).
-  destruct (fast_recursive_from_base n known f dp v fn (idxf n) ffnet_of_feedforward SOL TR (proj1 SV)
-              (fw_single _ FW)) with (s := s1) as (s2 & r & E2 & O2); try assumption.
+  destruct (fast_recursive_from_base n known f dp v fn (idxf n) ffnet_of_feedforward SOL TR (proj1 SV))
+              with (s := s1) as (s2 & r & E2 & O2); try assumption.
   { intros o Ho. pose proof (net_ok_outputs n (fw_ok _ FW) o Ho) as Hlt. pose proof (dp_lt_N o Hlt). lia. }
   exists fn, s1, s2, r. auto.
 Qed.
